@@ -31,21 +31,26 @@ class ShortReader(io.RawIOBase):
         return n
 
 
+completed = [0]
+
+
 def wrap_writer(w, how):
-    if how < 2:
-        return w
+    """Counts completed step writes (to attribute a failure to a step) and optionally re-wraps stream iterables."""
+    completed[0] = 0
     for name in dir(w):
         if name.startswith("write_"):
             orig = getattr(w, name)
 
             def mk(orig):
                 def f(value):
-                    if isinstance(value, (pytypes.GeneratorType,)) or hasattr(value, "__next__"):
+                    if how >= 2 and (isinstance(value, (pytypes.GeneratorType,)) or hasattr(value, "__next__")):
                         if how == 3:
                             value = list(value)
                         else:
                             value = (x for x in value)
-                    return orig(value)
+                    r = orig(value)
+                    completed[0] += 1
+                    return r
                 return f
             setattr(w, name, mk(orig))
     return w
@@ -71,7 +76,11 @@ def run(proto, mode, bs, data):
                 r.copy_to(ww)
         err = None
     except BaseException as e:  # noqa
-        err = "%s: %s" % (type(e).__name__, e)
+        err = "@step=%d %s: %s" % (completed[0], type(e).__name__, e)
+        import os as _os
+        if _os.environ.get("VERIF_PYTRACE"):
+            import traceback as _tb
+            err += "\n" + "".join(_tb.format_exc().splitlines(True)[-14:])
     o = out.getvalue()
     if isinstance(o, str):
         o = o.encode("utf-8")
